@@ -113,6 +113,15 @@ func (w *zzC05World) wiped(label string) {
 	for _, sm := range m.scopedManagers {
 		for _, ai := range sm.acctInfo {
 			verifrt.Assert(ai.acctKeyPriv == nil, label+"-account-private-key-dropped")
+			// the account's cached last addresses are address objects of
+			// their own (derived when the account row is loaded), not
+			// necessarily members of sm.addrs
+			for _, la := range []ManagedAddress{ai.lastExternalAddr, ai.lastInternalAddr} {
+				if a, ok := la.(*managedAddress); ok {
+					verifrt.Reach("last-address-checked")
+					verifrt.Assert(zzAllZero(a.privKeyCT), label+"-account-last-address-private-key-zeroed")
+				}
+			}
 		}
 		for _, ma := range sm.addrs {
 			switch a := ma.(type) {
@@ -195,6 +204,22 @@ func (w *zzC05World) gated(label string) {
 
 func zzC05Lock(state int) {
 	w := zzNewC05World(state)
+	if state == 3 {
+		// restart, unlock, then have the account row loaded while unlocked
+		// (AccountProperties derives the account's last addresses with
+		// their private keys)
+		w.mgr.Close()
+		w.open()
+		sm, err := w.mgr.FetchScopedKeyManager(KeyScopeBIP0084)
+		zzMust(err)
+		w.sm = sm
+		zzMust(w.view(func(ns walletdb.ReadBucket) error { return w.mgr.Unlock(ns, zzPrvPass) }))
+		zzMust(w.view(func(ns walletdb.ReadBucket) error {
+			_, err := w.sm.AccountProperties(ns, 0)
+			return err
+		}))
+		w.pubAddr, w.scripts, w.cached = nil, nil, nil
+	}
 	zzMust(w.mgr.Lock())
 	w.wiped("c05-wipe")
 	w.gated("c05-gate")
@@ -204,6 +229,7 @@ func zzC05Lock(state int) {
 func ZzC05LockFresh()   { zzC05Lock(0) }
 func ZzC05LockIssued()  { zzC05Lock(1) }
 func ZzC05LockImports() { zzC05Lock(2) }
+func ZzC05LockReloaded() { zzC05Lock(3) }
 
 // ZzC05Guess: Unlock with an arbitrary same-length passphrase succeeds iff it
 // is the passphrase; a failed attempt leaves the manager locked.
